@@ -13,7 +13,9 @@
      (driver race; the schedule is then unknown: []).  Every session's observations are compared with
      EngineModel run for that session alone, configured with that session's own entry function (value semantics: what C19_vm_run_on_heap says the slice
      heap computes), the final shared arrays with the model's (C19_no_write_to_shared).
-   The monitor looks at observations only: outputs equal those of the solo runs; shared arrays
+   Concurrent runs come in three deployment shapes (the kind tag of the case says which): plain; all sessions in
+   state-debug mode; persisted sessions sharing ONE filesystem state directory through separate handles.
+   The monitor looks at observations only: outputs, Finish/load success and the finally stored session equal those of the solo runs; shared arrays
    byte-identical to their initial content, sentinel region included; no session's st.Code ever
    overlapped a shared array. *)
 From Vise Require Import Bytes Errors Consts EngConsts Codec CacheModel StateModel NavModel RenderModel VmModel EngineModel CorrBase EngineCorr SliceHeap.
@@ -66,7 +68,8 @@ Definition prim_mon_raw (p : pcase) : bool :=
 Definition prim_mon_ok (p : pcase) : bool := negb (sched_repaired (pc_sched p)) || prim_mon_raw p.
 
 (* ---- application cases -------------------------------------------------------------------------------- *)
-Record sresp := mkSresp { sr_cont : bool; sr_exec : ostat; sr_out : list N; sr_flush : ostat }.
+(* sr_fin: Finish succeeded and the stored session could be loaded afterwards (true for long-lived sessions) *)
+Record sresp := mkSresp { sr_cont : bool; sr_exec : ostat; sr_out : list N; sr_flush : ostat; sr_fin : bool }.
 
 Record acase := mkAcase {
   ac_app : app;
@@ -79,7 +82,9 @@ Record acase := mkAcase {
   ac_solo : list (list sresp);                         (* per session: its responses when served alone *)
   ac_final : list (list N);                            (* code arrays afterwards, full capacity, in a_code order *)
   ac_aliased : bool;                                   (* some session's st.Code overlapped a shared array *)
-  ac_other_intact : bool                               (* template / label arrays byte-identical afterwards *)
+  ac_other_intact : bool;                              (* template / label arrays byte-identical afterwards *)
+  ac_fin : list (list bool);                           (* per session, per request of the run: Finish and the load of the stored session succeeded *)
+  ac_solo_final : list (option osnap)                  (* per session: its stored session (snapshot) at the end of its solo run *)
 }.
 
 Definition cfg_with_first (c : config) (f : option (list fres)) : config :=
@@ -96,15 +101,32 @@ Definition app_tbl (a : app) (spare : list N) : list (list N * list N) := map (f
 
 Definition app_corr_ok (ac : acase) : bool :=
   forallb (sess_corr_ok (ac_app ac) (ac_cfg ac)) (ac_sess ac)
+  && forallb (forallb (fun b => b)) (ac_fin ac)          (* the model's Finish never fails on a store nobody else writes to *)
   && list_eqb bytes_eqb (shared_arrays (app_tbl (ac_app ac) (ac_spare ac)) (res_heap (app_tbl (ac_app ac) (ac_spare ac)))) (ac_final ac).
 
-Definition sresp_of (o : eobs) : sresp := mkSresp (eo_cont o) (eo_exec o) (eo_out o) (eo_flush o).
+Definition sresp_of (o : eobs) (fin : bool) : sresp := mkSresp (eo_cont o) (eo_exec o) (eo_out o) (eo_flush o) fin.
 Definition sresp_eqb (a b : sresp) : bool :=
   Bool.eqb (sr_cont a) (sr_cont b) && ostat_eqb (sr_exec a) (sr_exec b)
-  && bytes_eqb (sr_out a) (sr_out b) && ostat_eqb (sr_flush a) (sr_flush b).
+  && bytes_eqb (sr_out a) (sr_out b) && ostat_eqb (sr_flush a) (sr_flush b) && Bool.eqb (sr_fin a) (sr_fin b).
+
+Fixpoint sresps_of (steps : list (list N * eobs)) (fins : list bool) : list sresp :=
+  match steps with
+  | [] => []
+  | (_, o) :: r => sresp_of o (match fins with f :: _ => f | [] => false end) :: sresps_of r (match fins with _ :: fr => fr | [] => [] end)
+  end.
+Fixpoint run_sresps (ss : list (bool * option (list fres) * list (list N * eobs))) (fins : list (list bool)) : list (list sresp) :=
+  match ss with
+  | [] => []
+  | s :: r => sresps_of (snd s) (match fins with f :: _ => f | [] => [] end) :: run_sresps r (match fins with _ :: fr => fr | [] => [] end)
+  end.
+
+(* the session's stored state after its last request of the run *)
+Definition last_snap (steps : list (list N * eobs)) : option osnap :=
+  match rev steps with (_, o) :: _ => eo_snap o | [] => None end.
 
 Definition app_mon_ok (ac : acase) : bool :=
-  list_eqb (list_eqb sresp_eqb) (map (fun s => map (fun p => sresp_of (snd p)) (snd s)) (ac_sess ac)) (ac_solo ac)
+  list_eqb (list_eqb sresp_eqb) (run_sresps (ac_sess ac) (ac_fin ac)) (ac_solo ac)
+  && list_eqb (option_eqb osnap_eqb) (map (fun s => last_snap (snd s)) (ac_sess ac)) (ac_solo_final ac)
   && list_eqb bytes_eqb (ac_final ac) (initial_arrays (app_tbl (ac_app ac) (ac_spare ac)))
   && negb (ac_aliased ac) && ac_other_intact ac.
 
